@@ -266,6 +266,33 @@ func c14Data() []c14Binding {
 		out = append(out, c14Binding{name: fmt.Sprintf("d%d", n), def: def, val: &mm})
 		add(m)
 	}
+	// every 5- and 6-subset of those keys, inserted in the listed and in the reverse order
+	for mask := 0; mask < 1<<len(ext); mask++ {
+		var sub []ref.Value
+		for i := range ext {
+			if mask&(1<<i) != 0 {
+				sub = append(sub, ext[i])
+			}
+		}
+		if len(sub) != 5 && len(sub) != 6 {
+			continue
+		}
+		for _, rev := range []bool{false, true} {
+			m := ref.NewMap()
+			n++
+			def := fmt.Sprintf("d%d = {}", n)
+			for i := range sub {
+				k := sub[i]
+				if rev {
+					k = sub[len(sub)-1-i]
+				}
+				m = ref.MapSet(m, k, ref.Int(int64(i)))
+				def += fmt.Sprintf("; d%d[%s] = %d", n, ref.Source(k), i)
+			}
+			mm := m
+			out = append(out, c14Binding{name: fmt.Sprintf("d%d", n), def: def, val: &mm})
+		}
+	}
 	add(ref.Arr(ref.Float(1.0), ref.Float(2.5)))
 	add(ref.NewMap(ref.Pair{K: ref.Float(2.0), V: ref.Str("x")}))
 	return out
